@@ -303,6 +303,8 @@ def paths(fnode, max_paths=64, stop_at_raise=True):
             if isinstance(st, ast.Raise):
                 return
             if isinstance(st, ast.If):
+                if st.body and isinstance(st.body[-1], ast.Raise) and not st.orelse:
+                    continue        # a refusal: the surviving path carries no condition worth recording
                 run(st.body + stmts[i + 1:], conds + [(st.test, True)], env, checks)
                 run(st.orelse + stmts[i + 1:], conds + [(st.test, False)], env, checks)
                 return
